@@ -77,6 +77,8 @@ where
     fn sample_to_slice<R: Rng + ?Sized>(&self, rng: &mut R, output: &mut [F]) {
         assert_eq!(output.len(), self.sample_len());
 
+        #[cfg(rand_distr_verif)]
+        crate::verif_hooks::probe(75);
         let mut sum = F::zero();
 
         for (s, g) in output.iter_mut().zip(self.samplers.iter()) {
@@ -163,6 +165,8 @@ where
     fn sample_to_slice<R: Rng + ?Sized>(&self, rng: &mut R, output: &mut [F]) {
         assert_eq!(output.len(), self.sample_len());
 
+        #[cfg(rand_distr_verif)]
+        crate::verif_hooks::probe(76);
         let mut acc = F::one();
 
         for (s, beta) in output.iter_mut().zip(self.samplers.iter()) {
